@@ -10,7 +10,7 @@
    Two clocks: now = time.Now() on the nodes, bnow = the shared backend's expiry clock. *)
 From Coq Require Import List NArith ZArith Bool.
 Import ListNotations.
-From TX Require Import Base.Val Model.Routing Proofs.Routing Proofs.RoutingRefine Proofs.SideC09 Gen.C09.
+From TX Require Import Base.Val Model.RoutingConc Proofs.Routing Proofs.RoutingRefine Proofs.RoutingConc Proofs.SideC09 Gen.C09.
 Open Scope N_scope.
 
 (* (1) lookup_exact.  After RegisterWaitingTunnel(r) on node n1 at time T, along every history that does not
@@ -46,6 +46,58 @@ Theorem C09_lookup_exact_same_cell :
   step gstr enc dec decm of_addr to_addr keep c s2 (OLookup n2 (w_tunnel r)) = (s2, ROk r').
 Proof. exact lookup_exact. Qed.
 Print Assumptions C09_lookup_exact_same_cell.
+
+(* (1c) concurrency, at the granularity of storage calls (Model/RoutingConc.v on Base/Threads.v).  After
+   RegisterWaitingTunnel(r) took effect - on ANY state, e.g. one that still holds the lapsed, unswept record of an
+   earlier life of the same id - for ANY number of threads with ANY programs that do not register/remove that id
+   (concurrent registrations and removals of other ids by any nodes, lookups of any id, address refreshes, SWEEPS of any
+   store (memory.Storage.CleanupExpired), clock ticks) and EVERY schedule of their atomic steps: in the state reached, a
+   lookup from any node returns exactly r with its stamps while ExpiresAt / the backend deadline have not passed.
+   Atomic step = one RoutingTable call = one storage call (Set: encode and store as one action; the sweep: one
+   critical section) - the obligations the harness checks on the real backends (streams "conc" and "sweep"). *)
+Theorem C09_routable_under_every_schedule :
+  forall gstr enc dec decm of_addr to_addr keep c s n1 r ls sched n2,
+  keys_disjoint c -> c_route c (wait_key c (w_tunnel r)) = true -> c_ttl c <> 0 -> w_tunnel r <> [] ->
+  let r' := stamp r (now gstr s) (now gstr s + c_ttl c) in
+  dec (enc r') = Some r' ->
+  Forall (thread_free_of (w_tunnel r)) ls ->
+  let sh := fst (crun gstr enc dec decm of_addr to_addr keep false c
+                      (fst (step gstr enc dec decm of_addr to_addr keep c s (ORegister n1 r))) ls sched) in
+  now gstr sh <= now gstr s + c_ttl c -> bnow gstr sh <= bnow gstr s + c_ttl c ->
+  lookup gstr enc dec decm of_addr to_addr keep c sh n2 (w_tunnel r) = ROk r'.
+Proof. exact routable_from_any_node_all_schedules. Qed.
+Print Assumptions C09_routable_under_every_schedule.
+
+(* the same per storage cell (any deployment): threads must not set the cell the registration wrote *)
+Theorem C09_routable_under_every_schedule_cell :
+  forall gstr enc dec decm of_addr to_addr keep c s n1 r ls sched n2,
+  c_ttl c <> 0 -> w_tunnel r <> [] ->
+  let r' := stamp r (now gstr s) (now gstr s + c_ttl c) in
+  dec (enc r') = Some r' ->
+  let cl := cell_of c n1 (wait_key c (w_tunnel r)) in
+  cell_of c n2 (wait_key c (w_tunnel r)) = cl ->
+  Forall (thread_ok c cl) ls ->
+  let sh := fst (crun gstr enc dec decm of_addr to_addr keep false c
+                      (fst (step gstr enc dec decm of_addr to_addr keep c s (ORegister n1 r))) ls sched) in
+  now gstr sh <= now gstr s + c_ttl c -> clk gstr sh cl <= clk gstr s cl + c_ttl c ->
+  step gstr enc dec decm of_addr to_addr keep c sh (OLookup n2 (w_tunnel r)) = (sh, ROk r').
+Proof. exact routable_all_schedules. Qed.
+Print Assumptions C09_routable_under_every_schedule_cell.
+
+(* ... and it does depend on the sweep being one critical section: a sweep that collects the lapsed keys in one section
+   and deletes them in a later one loses a re-registration that lands in between (schedule scan ; register ; delete),
+   while with the sweep as found every order of {sweep, register} leaves the fresh record routable. *)
+Theorem C09_two_phase_sweep_refuted :
+  let c := cfg_direct 30000000000 true in
+  let s0 := ex_final c (fst (ex_step c (init ex_gstr) (ORegister 0 ex_rec))) [OTick 30000000001 30000000001] in
+  let fresh := ROk (stamp ex_rec_b 30000000001 60000000001) in
+  ex_lookup c s0 0 (w_tunnel ex_rec) = RNotFound
+  /\ ex_lookup c (fst (ex_crun false c s0 ex_sweep_threads [0; 1]%nat)) 0 (w_tunnel ex_rec) = fresh
+  /\ ex_lookup c (fst (ex_crun false c s0 ex_sweep_threads [1; 0]%nat)) 0 (w_tunnel ex_rec) = fresh
+  /\ ex_lookup c (fst (ex_crun true c s0 ex_sweep_threads [1; 0; 0]%nat)) 0 (w_tunnel ex_rec) = fresh
+  /\ ex_lookup c (fst (ex_crun true c s0 ex_sweep_threads [0; 1; 0]%nat)) 0 (w_tunnel ex_rec) = RNotFound.
+Proof. exact two_phase_sweep_refuted. Qed.
+Print Assumptions C09_two_phase_sweep_refuted.
 
 (* (2) no_stale, first form.  After Register(r), along every history in which nobody registers the id again
    (removals, lookups, ticks of BOTH clocks by any amounts, other ids: all allowed), a lookup from any node answers
